@@ -26,9 +26,11 @@ type checker struct {
 	rf      *shards // JSON text (tokens) -> validity, reader events
 	sf      *shards // scalar oracles: float class, integer text -> float, UTF-8 coercion
 	pf      *shards // protobuf: values, event trees, collector
+	vf      *shards // Serializer: options + value -> the calls the consumer received
 	nViolJ  int
 	nViolP  int
 	nKnown  int
+	nSer    int
 	seen    int
 	hint    int // the length-hint policy the next event stream is played under (events.go hintFor)
 }
@@ -47,7 +49,7 @@ type shards struct {
 	bytes int // of the last file
 }
 
-var caseImports = []string{"Model.Base", "Model.Json", "Model.Pb", "Model.PbMem", "Corr.CorrC11"}
+var caseImports = []string{"Model.Base", "Model.Json", "Model.Pb", "Model.PbMem", "Model.JsonSer", "Corr.CorrC11"}
 
 func (s *shards) Add(term string, input interface{}) {
 	if len(s.files) == 0 || len(s.files[len(s.files)-1].Cases) >= maxCasesPerFile || s.bytes+len(term) > maxBytesPerFile {
@@ -85,11 +87,13 @@ func newChecker(cfg *lib.Config, res *lib.Result) *checker {
 			"scalar_oracles": "scalar_mismatches cases"}},
 		pf: &shards{name: "cases_pb", typ: "pcase", obl: map[string]string{
 			"pb_model": "pb_mismatches cases"}},
+		vf: &shards{name: "cases_ser", typ: "sercase", obl: map[string]string{
+			"ser_model": "ser_mismatches cases"}},
 	}
 }
 
 func (c *checker) finish() {
-	for _, s := range []*shards{c.jf, c.rf, c.sf, c.pf} {
+	for _, s := range []*shards{c.jf, c.rf, c.sf, c.pf, c.vf} {
 		c.res.CorrFiles = append(c.res.CorrFiles, s.WriteAll(c.cfg.Out)...)
 	}
 }
